@@ -122,8 +122,10 @@ def populate(u, extra_items=None, extra_packet_fns=(), extra_spec=''):
         ensures ver_of(final(self).ver_type_tkl) == v, type_bits_of(final(self).ver_type_tkl) == type_bits_of(old(self).ver_type_tkl),
             tkl_of(final(self).ver_type_tkl) == tkl_of(old(self).ver_type_tkl),
             final(self).code == old(self).code, final(self).message_id == old(self).message_id''', props=['C01', 'C07'])
-    u.after((H, 'set_version'), r'let type_tkl = (\w+) & self\.ver_type_tkl;', '''        proof {
+    u.after((H, 'set_version'), r'let type_tkl = (?:self\.ver_type_tkl & )?(\w+)(?: & self\.ver_type_tkl)?;', '''        proof {
             let x = self.ver_type_tkl;
+            assert((\\g<1> & x) == (x & \\g<1>)) by (bit_vector);
+            assert forall|a: u8, b: u8| #[trigger] (a | b) == (b | a) by { assert((a | b) == (b | a)) by (bit_vector); }
             assert(v < 4 ==> (v << 6 | (\\g<1> & x)) / 64 == v) by (bit_vector);
             assert(v < 4 ==> ((v << 6 | (\\g<1> & x)) / 16) % 4 == (x / 16) % 4) by (bit_vector);
             assert(v < 4 ==> (v << 6 | (\\g<1> & x)) % 16 == x % 16) by (bit_vector);
@@ -135,8 +137,10 @@ def populate(u, extra_items=None, extra_packet_fns=(), extra_spec=''):
     u.contract((H, 'set_type'), '''        ensures type_bits_of(final(self).ver_type_tkl) == bits_of_type(t), ver_of(final(self).ver_type_tkl) == ver_of(old(self).ver_type_tkl),
             tkl_of(final(self).ver_type_tkl) == tkl_of(old(self).ver_type_tkl),
             final(self).code == old(self).code, final(self).message_id == old(self).message_id''', props=['C01', 'C05', 'C07'])
-    u.after((H, 'set_type'), r'let ver_tkl = (\w+) & self\.ver_type_tkl;', '''        proof {
+    u.after((H, 'set_type'), r'let ver_tkl = (?:self\.ver_type_tkl & )?(\w+)(?: & self\.ver_type_tkl)?;', '''        proof {
             let x = self.ver_type_tkl; let tn8: u8 = tn;
+            assert((\\g<1> & x) == (x & \\g<1>)) by (bit_vector);
+            assert forall|a: u8, b: u8| #[trigger] (a | b) == (b | a) by { assert((a | b) == (b | a)) by (bit_vector); }
             assert(tn8 <= 3 ==> ((tn8 << 4 | (\\g<1> & x)) / 16) % 4 == tn8) by (bit_vector);
             assert(tn8 <= 3 ==> (tn8 << 4 | (\\g<1> & x)) / 64 == x / 64) by (bit_vector);
             assert(tn8 <= 3 ==> (tn8 << 4 | (\\g<1> & x)) % 16 == x % 16) by (bit_vector);
@@ -146,8 +150,10 @@ def populate(u, extra_items=None, extra_packet_fns=(), extra_spec=''):
             type_bits_of(final(self).ver_type_tkl) == type_bits_of(old(self).ver_type_tkl),
             final(self).code == old(self).code, final(self).message_id == old(self).message_id''', props=['C01', 'C07'])
     u.body_start((H, 'set_token_length'), '        proof { assert(tkl < 16 ==> 0xF0 & tkl == 0) by (bit_vector); }')
-    u.after((H, 'set_token_length'), r'let ver_type = (\w+) & self\.ver_type_tkl;', '''        proof {
+    u.after((H, 'set_token_length'), r'let ver_type = (?:self\.ver_type_tkl & )?(\w+)(?: & self\.ver_type_tkl)?;', '''        proof {
             let x = self.ver_type_tkl;
+            assert((\\g<1> & x) == (x & \\g<1>)) by (bit_vector);
+            assert forall|a: u8, b: u8| #[trigger] (a | b) == (b | a) by { assert((a | b) == (b | a)) by (bit_vector); }
             assert(tkl < 16 ==> (tkl | (\\g<1> & x)) % 16 == tkl) by (bit_vector);
             assert(tkl < 16 ==> (tkl | (\\g<1> & x)) / 64 == x / 64) by (bit_vector);
             assert(tkl < 16 ==> ((tkl | (\\g<1> & x)) / 16) % 4 == (x / 16) % 4) by (bit_vector);
